@@ -112,17 +112,18 @@ func (g *gen) Generate(typs []types.Type) error {
 	fStr := g.TypeString(ftyp)
 	last, gtyp := applySig(ftyp)
 	gStr := g.TypeString(gtyp)
+	f := derive.UnusedName("f", ftyp.Params(), ftyp.Results())
 	p.P("")
 	p.P("// %s applies the second argument to a given function's last argument and returns a function which which takes the rest of the parameters as input and finally returns the original input function's results.", name)
-	p.P("func %s(f %s, %s %s) %s {", name, fStr, last.Name(), g.TypeString(lastArg), gStr)
+	p.P("func %s(%s %s, %s %s) %s {", name, f, fStr, last.Name(), g.TypeString(lastArg), gStr)
 	p.In()
 	p.P("return %s {", gStr)
 	p.In()
 	as := varnames(ftyp.Params())
 	if ftyp.Results().Len() == 0 {
-		p.P("f(%s)", strings.Join(as, ", "))
+		p.P("%s(%s)", f, strings.Join(as, ", "))
 	} else {
-		p.P("return f(%s)", strings.Join(as, ", "))
+		p.P("return %s(%s)", f, strings.Join(as, ", "))
 	}
 	p.Out()
 	p.P("}")
